@@ -348,6 +348,7 @@ class Dataset(Evaluatable[A]):
             self.cache,
             mix(self.options, options),  # type: ignore
             self.default_options,
+            self.callback,
         )
 
     def with_default_options(self, options: Options) -> "Dataset[A]":
@@ -373,6 +374,7 @@ class Dataset(Evaluatable[A]):
             self.cache,
             self.options,
             mix(self.default_options, options),  # type: ignore
+            self.callback,
         )
 
     @property
